@@ -134,3 +134,26 @@ func withWatchdog(what string, d time.Duration, f func()) {
 		os.Exit(97)
 	}
 }
+
+// withProgressWatchdog is withWatchdog for work that legitimately waits for other work: it fires
+// only when f has not returned and progress() has not changed during a whole period d.
+func withProgressWatchdog(what string, d time.Duration, progress func() int64, f func()) {
+	done := make(chan struct{})
+	go func() { f(); close(done) }()
+	last := progress()
+	for {
+		select {
+		case <-done:
+			return
+		case <-time.After(d):
+			if p := progress(); p != last {
+				last = p
+				continue
+			}
+			buf := make([]byte, 1<<20)
+			n := runtime.Stack(buf, true)
+			fmt.Fprintf(os.Stderr, "HARNESS-WATCHDOG: %s made no progress for %v\n%s\n", what, d, buf[:n])
+			os.Exit(97)
+		}
+	}
+}
